@@ -309,6 +309,12 @@ func childBatch() {
 			}
 			return true
 		}
+		if c.Site == "field4" || c.Site == "field8" {
+			// a hostile value in a 4 or 8 byte field is what typically kills a decoder: make
+			// everything before it durable, so that a restart has nothing to repeat
+			checkpoint(idx, false)
+			last = now
+		}
 		prog.set(uint64(idx))
 		wd.started.Store(now.UnixNano())
 		o := decodeOne(c.Kind, c.Input)
